@@ -263,8 +263,9 @@ static void run_r1(int miss, int amount_i, int order, int typei,
 	    "(%.0f %%), %s, %s 1x1", miss == 0 ? "covers exactly" :
 	    miss == 1 ? "covers with margin" : miss == 2 ? "misses the low "
 	    "end of" : miss == 3 ? "misses the high end of" : "misses both "
-	    "ends of", 100 * a, order ? "standard added before "
-	    "set_frequency_vector" : "set_frequency_vector first",
+	    "ends of", 100 * a, order == 0 ? "set_frequency_vector first" :
+	    order == 1 ? "standard added before set_frequency_vector" :
+	    "covered band set, standard added, then the band set again",
 	    vnacal_type_to_name(tt[typei]));
     vf_errlog_reset(&elog);
     vcp = vnacal_create((vnaerr_error_fn_t *)vf_errfn, &elog);
@@ -275,8 +276,18 @@ static void run_r1(int miss, int amount_i, int order, int typei,
 	rc1 = vnacal_new_set_frequency_vector(vnp, cal_f);
 	errno = 0;
 	rc2 = vnacal_new_add_single_reflect_m(vnp, mm, 1, 1, h, 1);
-    } else {
+    } else if (order == 1) {
 	rc1 = vnacal_new_add_single_reflect_m(vnp, mm, 1, 1, h, 1);
+	errno = 0;
+	rc2 = vnacal_new_set_frequency_vector(vnp, cal_f);
+    } else {
+	/* a band the standard covers first, the standard, then the band
+	   under test: the second vnacal_new_set_frequency_vector must
+	   re-check the standards already added */
+	double band1[3] = { pf[0], pf[1], pf[3] };
+	rc1 = vnacal_new_set_frequency_vector(vnp, band1);
+	if (rc1 == 0)
+	    rc1 = vnacal_new_add_single_reflect_m(vnp, mm, 1, 1, h, 1);
 	errno = 0;
 	rc2 = vnacal_new_set_frequency_vector(vnp, cal_f);
     }
@@ -581,7 +592,7 @@ out:
 /* ---- case space ------------------------------------------------------ */
 
 #define N_R0 (7 * NSPACING * NFUNC)
-#define N_R1 (5 * 3 * 2 * 2)
+#define N_R1 (5 * 3 * 3 * 2)
 static int n_r2(int tier) { return 8 * 2 * (tier ? 3 : 1); }
 #define N_R3 (5 * NSPACING * 2 * 2 * 4)
 #define N_R4 (5 * NSPACING * 2)
@@ -601,7 +612,7 @@ static void run(int tier, long idx, vf_result *r)
 	run_r0((int)idx + 1, sp, fn, r);
     } else if ((idx -= N_R0) < N_R1) {
 	int typei = vf_digit(&idx, 2);
-	int order = vf_digit(&idx, 2);
+	int order = vf_digit(&idx, 3);
 	int am = vf_digit(&idx, 3);
 	run_r1((int)idx, am, order, typei, r);
     } else if ((idx -= N_R1) < n_r2(tier)) {
